@@ -2,6 +2,7 @@
    usage: driver <mode> < input > output *)
 open Model
 open Scen
+open Sched
 
 (* ---------- mode seq: single-producer runs (engine S) ------------------------------------
    scenario: thread 0 is the only client; its ops are dispatches; output: the reducer-context
@@ -125,8 +126,32 @@ let run_chanops () =
     done
   with End_of_file -> ()
 
+(* ---------- mode lock: random schedules of the interleaving model (engine L) ------------------
+   args: seed probe_pct max_steps; a scenario may carry an explicit `schedule` line instead *)
+let run_lock seed probe_pct max_steps =
+  let idx = ref 0 in
+  iter_scenarios stdin (fun sc ->
+    incr idx;
+    let cfg = config_of sc and w0 = world_of sc in
+    let explicit = List.filter_map (fun (k, rest) -> if k = "schedule" then Some rest else None) sc.extra in
+    let (lines, w) =
+      match explicit with
+      | rest :: _ ->
+          replay_schedule cfg w0 (List.map (fun tok ->
+            match split_on ':' tok with
+            | [k; t] -> (k, int_of_string t)
+            | _ -> fail "bad schedule token %s" tok) rest)
+      | [] ->
+          let rng = Random.State.make [| seed; !idx |] in
+          gen_schedule cfg w0 rng { probe_pct; max_steps; max_probes = 6 } in
+    List.iter print_endline lines;
+    List.iter print_endline (end_lines w);
+    List.iter print_endline (hist_lines w);
+    print_endline "---")
+
 let () =
   match Array.to_list Sys.argv with
+  | _ :: "lock" :: seed :: pp :: ms :: _ -> run_lock (int_of_string seed) (int_of_string pp) (int_of_string ms)
   | _ :: "seq" :: _ -> run_seq ()
   | _ :: "builder" :: _ -> run_builder ()
   | _ :: "selector" :: _ -> run_selector ()
